@@ -1,7 +1,7 @@
 (* C13 — Generic header parameter rules are enforced identically on encode and decode.
    Statements only (copied from coq/theories by bin/mkprops); each proof is `exact <lemma>`. *)
 From Coq Require Import Ascii String ZArith List Bool Permutation.
-From GoCose Require Import Bytes Cbor CborProofs Res GoVal Obs Ecdsa EcdsaProofs Fx Headers Enc Dec Msg HashEnv Key SigVer Run TbsProofs FlowProofs DecProofs KeyProofs HdrProofs EncProofs EncCanon NoPanic Effects MoreProofs KeyCbor EncDec.
+From GoCose Require Import Bytes Cbor CborProofs Res GoVal Obs Ecdsa EcdsaProofs Fx Headers Enc Dec Msg HashEnv Key SigVer Run TbsProofs FlowProofs DecProofs KeyProofs HdrProofs EncProofs EncCanon NoPanic Effects MoreProofs KeyCbor EncDec HdrRoundTrip.
 From GoCose.Gen Require Import Generated.
 Import ListNotations.
 Open Scope Z_scope.
@@ -106,3 +106,40 @@ Theorem C13_respelled_example :
   validate_params [GInt KInt8 4; GBytes [1]; GInt KUint16 2; GArr [GInt KInt64 4]] true = true.
 Proof. exact respelled_example. Qed.
 Print Assumptions C13_respelled_example.
+
+(* a header set accepted on the encode side is accepted on the decode side: the RFC 9052 3.1 rules that hold for a bucket hold for the bucket rebuilt from its encoding (labels normalised, integer kinds widened, entries in any order) *)
+Theorem C13_validate_params_transport :
+  forall l dl prot,
+  hrel l dl -> (forall k v, entry_in k v l -> okval v) ->
+  validate_params l prot = true -> validate_params dl prot = true.
+Proof. exact validate_params_transport. Qed.
+Print Assumptions C13_validate_params_transport.
+
+(* the protected bucket through MarshalCBOR / UnmarshalCBOR *)
+Theorem C13_protected_roundtrip :
+  forall l pb,
+  l <> [] -> simple (GMap l) = true -> (forall k v, entry_in k v l -> okval v) ->
+  enc_protected (Some l) = Acc pb ->
+  (forall m, enc_hmap l = Acc m -> within_limits m) ->
+  exists m dl, enc_hmap l = Acc m /\ pb = enc_bstr m /\
+               unmarshal_protected pb = Acc (cast_alg dl) /\ hrel l dl /\ validate_params dl true = true.
+Proof. exact protected_roundtrip. Qed.
+Print Assumptions C13_protected_roundtrip.
+
+(* the unprotected bucket *)
+Theorem C13_unprotected_roundtrip :
+  forall l ub,
+  l <> [] -> simple (GMap l) = true -> (forall k v, entry_in k v l -> okval v) ->
+  enc_unprotected (Some l) = Acc ub -> within_limits ub ->
+  exists dl, unmarshal_unprotected ub = Acc dl /\ hrel l dl /\ validate_params dl false = true.
+Proof. exact unprotected_roundtrip. Qed.
+Print Assumptions C13_unprotected_roundtrip.
+
+Theorem C13_roundtrip_example :
+  let l := [GInt KInt 1; GInt KAlg (-7); GInt KInt8 4; GBytes [1; 2]; GInt KInt64 2; GArr [GInt KUint8 4]] in
+  simple (GMap l) = true /\ validate_params l true = true /\
+  enc_protected (Some l) = Acc (x "4aa3012602810404420102") /\
+  unmarshal_protected (x "4aa3012602810404420102") =
+    Acc [GInt KInt64 1; GInt KAlg (-7); GInt KInt64 2; GArr [GInt KInt64 4]; GInt KInt64 4; GBytes [1; 2]].
+Proof. exact roundtrip_example. Qed.
+Print Assumptions C13_roundtrip_example.
